@@ -213,7 +213,7 @@ class BuiltinCalls:
         if n is not None:
             I.hook("convert", node, name, n)
             if name == "float":
-                return Num(kinds=FLOAT, rng=n.rng, deg=n.deg, prov=n.prov, sym=n.sym if n.kinds == FLOAT else mk_sym("call", "float", n.sym), const=float(n.const) if n.const is not None else None)
+                return Num(kinds=FLOAT, rng=n.rng, deg=n.deg, prov=n.prov, sym=n.sym if n.kinds == FLOAT else mk_sym("call", "float", n.sym), const=float(n.const) if n.const is not None else None, wt=n.wt)
             rng = None
             if n.rng is not None:
                 rng = Interval(math.floor(n.rng.lo) if n.rng.lo > -INF else -INF, math.ceil(n.rng.hi) if n.rng.hi < INF else INF, n.rng.lo == -INF, n.rng.hi == INF)
@@ -618,7 +618,12 @@ class BuiltinCalls:
         full = not (s.flags & {"partial", "reordered", "building", "weak-append", "cond-append", "multi-append", "unmodelled"})
         sym = mk_sym("fold", ("const", "+"), ("const", fv), esym, ("lenterm", s.length.term)) if s.length.term is not None and esym is not None and full else None
         I.event("fold", node, how="sum", seq=s, elem=en, sym=sym, full=full)
-        return Num(kinds=kinds, rng=rng, deg=deg, prov=en.prov | sn.prov, sym=sym)
+        wt = None
+        if I.shift_mode:
+            from . import shift
+
+            wt = shift.fold_sum(I, en, s.length.term, node)
+        return Num(kinds=kinds, rng=rng, deg=deg, prov=en.prov | sn.prov, sym=sym, wt=wt)
 
     def b_abs(self, args, kwargs, node, state):
         n = self.I.as_num(args[0])
@@ -682,6 +687,10 @@ class BuiltinCalls:
                 const=const,
             )
         I.hook("minmax", node, is_max, nums, acc)
+        if I.shift_mode:
+            from . import shift
+
+            acc = replace(acc, wt=shift.same(I, "max/min", nums, node))
         return acc
 
     def b_max(self, args, kwargs, node, state):
@@ -921,6 +930,27 @@ class BuiltinCalls:
     # math
     # ==================================================================================
     def math_call(self, name: str, args, node, state: State) -> Val:
+        r = self._math_call(name, args, node, state)
+        I = self.I
+        if I.shift_mode and isinstance(r, Num):
+            from . import shift
+
+            nums = [I.as_num(a) for a in args]
+            if nums and all(n is not None for n in nums):
+                if name == "exp":
+                    r = replace(r, wt=shift.exp(I, nums[0], node))
+                elif name in ("fabs",):
+                    r = replace(r, wt=shift.abs_(I, nums[0], node))
+                elif name in ("fsum",):
+                    pass
+                else:
+                    w = shift.ZERO
+                    for n in nums:
+                        w = shift.invariant_only(I, f"math.{name}", n, node) if w is not None else None
+                    r = replace(r, wt=w)
+        return r
+
+    def _math_call(self, name: str, args, node, state: State) -> Val:
         I = self.I
         nums = [I.as_num(a) for a in args]
         if any(n is None for n in nums):
@@ -1035,6 +1065,17 @@ class BuiltinCalls:
     # statistics.NormalDist (default standard normal)
     # ==================================================================================
     def normal_method(self, name: str, recv: Val, args, node, state: State) -> Val:
+        r = self._normal_method(name, recv, args, node, state)
+        I = self.I
+        if I.shift_mode and isinstance(r, Num) and args:
+            from . import shift
+
+            x = I.as_num(args[0])
+            if x is not None:
+                r = replace(r, wt=shift.invariant_only(I, f"NormalDist.{name}", x, node))
+        return r
+
+    def _normal_method(self, name: str, recv: Val, args, node, state: State) -> Val:
         I = self.I
         standard = True
         if isinstance(recv, Ptr):
